@@ -22,7 +22,7 @@ EVS = {'CTOR': 8, 'SSUCC': 9, 'DTOR': 10}
 #   cc< ID, R... >         ... from change_control< quiet control >
 #   ea< ID, R... > / da< ID, R... >   enable_action / disable_action
 #   state< i, R... >       the state rule with vstate<i>;  action< T, R... >, control< R... > the rule forms
-PSEUDO = ('cs', 'css', 'ca', 'cas', 'cc', 'ea', 'da')
+PSEUDO = ('cs', 'csd', 'css', 'ca', 'cas', 'casd', 'cc', 'ea', 'da')   # ...d: with a state that is only default-constructible
 ACTNAME = {1: 'actA', 2: 'actB'}
 
 
@@ -54,20 +54,28 @@ class Gen13(evgen.EvGen):
             f = s.fn(E('seq', a[1:]))
             return ('  int ost = cx_st; sv(%d, %d, p, ost); cx_st = %d; out_t x = %s(p, a); cx_st = ost;\n'
                     '  if (x.r == 1) sv(%d, %d, x.pos, ost);\n  sv(%d, %d, 0, 0); return x;' % (EVS['CTOR'], i, i, f, EVS['SSUCC'], i, EVS['DTOR'], i))
-        if n in ('cs', 'css'):
+        if n == 'stated':
+            i = ival(a[0])
+            f = s.fn(E('seq', a[1:]))
+            return ('  int ost = cx_st; sv(%d, %d, 0, 0); cx_st = %d; out_t x = %s(p, a); cx_st = ost;\n'
+                    '  if (x.r == 1) sv(%d, %d, x.pos, ost);\n  sv(%d, %d, 0, 0); return x;' % (EVS['CTOR'], i, i, f, EVS['SSUCC'], i, EVS['DTOR'], i))
+        if n in ('cs', 'css', 'csd'):
             i = ival(a[0])
             f = s.fn(s.named_of(e, 1))
             ctor = 'sv(%d, %d, p, ost);' % (EVS['CTOR'], i) if n == 'cs' else 'sv(%d, %d, 0, 0);' % (EVS['CTOR'], i)
-            succ = 'sv(%d, %d, x.pos, ost);' % (EVS['SSUCC'], i) if n == 'cs' else 'sv(%d, %d, x.pos, ost);' % (EVS['SSUCC'], 40 + i)
+            succ = 'sv(%d, %d, x.pos, ost);' % (EVS['SSUCC'], i) if n in ('cs', 'csd') else 'sv(%d, %d, x.pos, ost);' % (EVS['SSUCC'], 40 + i)
             return ('  int ost = cx_st; %s cx_st = %d; out_t x = %s(p, a); cx_st = ost;\n'
                     '  if (x.r == 1 && a) %s\n  sv(%d, %d, 0, 0); return x;' % (ctor, i, f, succ, EVS['DTOR'], i))
         if n == 'ca':
             t = ival(a[0])
             f = s.fn(s.named_of(e, 1, True))
             return '  int oa = cx_act; cx_act = %d; out_t x = %s(p, a); cx_act = oa; return x;' % (t, f)
-        if n == 'cas':
+        if n in ('cas', 'casd'):
             t, i = ival(a[0]), ival(a[1])
             f = s.fn(s.named_of(e, 2, True))
+            if n == 'casd':
+                return ('  int ost = cx_st, oa = cx_act; sv(%d, %d, 0, 0); cx_st = %d; cx_act = %d; out_t x = %s(p, a); cx_st = ost; cx_act = oa;\n'
+                        '  if (x.r == 1 && a) sv(%d, %d, x.pos, ost);\n  sv(%d, %d, 0, 0); return x;' % (EVS['CTOR'], i, i, t, f, EVS['SSUCC'], i, EVS['DTOR'], i))
             return ('  int ost = cx_st, oa = cx_act; sv(%d, %d, p, ost); cx_st = %d; cx_act = %d; out_t x = %s(p, a); cx_st = ost; cx_act = oa;\n'
                     '  if (x.r == 1 && a) sv(%d, %d, x.pos, ost);\n  sv(%d, %d, 0, 0); return x;' % (EVS['CTOR'], i, i, t, f, EVS['SSUCC'], i, EVS['DTOR'], i))
         if n == 'cc':
@@ -89,9 +97,9 @@ def cxx(e, act, specs):
     """C++ type text; collects the action-class specialisations that attach the switches"""
     n, a = e.name, e.args
     if n in PSEUDO:
-        skip = {'cs': 1, 'css': 1, 'ca': 1, 'cas': 2, 'cc': 0, 'ea': 0, 'da': 0}[n]
+        skip = {'cs': 1, 'csd': 1, 'css': 1, 'ca': 1, 'cas': 2, 'casd': 2, 'cc': 0, 'ea': 0, 'da': 0}[n]
         inner_act = act
-        if n in ('ca', 'cas'):
+        if n in ('ca', 'cas', 'casd'):
             inner_act = ival(a[0])
         if act == 0:
             raise ValueError('switch attached while no action class is in force')
@@ -100,6 +108,10 @@ def cxx(e, act, specs):
         an = ACTNAME[act]
         if n == 'cs':
             base = 'tao::pegtl::change_state< vf::vstate< %d > >' % ival(a[0])
+        elif n == 'csd':
+            base = 'tao::pegtl::change_state< vf::vstate_d< %d > >' % ival(a[0])
+        elif n == 'casd':
+            base = 'tao::pegtl::change_action_and_state< %s, vf::vstate_d< %d > >' % (ACTNAME[ival(a[0])], ival(a[1]))
         elif n == 'css':
             i = ival(a[0])
             base = ('tao::pegtl::change_states< vf::vstate< %d > >\n{\n   template< typename ParseInput, typename... States >\n'
@@ -121,6 +133,8 @@ def cxx(e, act, specs):
         return ty
     if n == 'state':
         return 'state< vf::vstate< %d >, %s >' % (ival(a[0]), ', '.join(cxx(x, act, specs) for x in a[1:]))
+    if n == 'stated':
+        return 'state< vf::vstate_d< %d >, %s >' % (ival(a[0]), ', '.join(cxx(x, act, specs) for x in a[1:]))
     if n == 'action':
         return 'tao::pegtl::action< %s, %s >' % (ACTNAME[ival(a[0])], ', '.join(cxx(x, ival(a[0]), specs) for x in a[1:]))
     if n == 'control':
@@ -183,6 +197,11 @@ GRAMMARS = [
     ('disable_in_at', 'named< 0, at< ea< 1, %s > >, da< 2, %s >, %s >' % (S0, S1, S2)),
     ('action_rule', 'named< 0, action< 2, named< 1, %s > >, %s >' % (S0, S1)),
     ('control_rule', 'named< 0, control< named< 1, %s > >, %s >' % (S0, S1)),
+    ('change_state_default', 'named< 0, at< csd< 1, 1, %s > >, csd< 2, 2, %s >, %s >' % (S0, S0, S1)),
+    ('change_state_default_disabled', 'named< 0, disable< csd< 1, 1, %s, %s > >, %s >' % (S0, S1, S2)),
+    ('state_rule_default', 'named< 0, stated< 1, named< 1, %s > >, at< stated< 2, %s > >, %s >' % (S0, S1, S2)),
+    ('cas_default', 'named< 0, not_at< casd< 2, 1, 1, %s > >, casd< 2, 2, 2, %s >, %s >' % (S0, S1, S2)),
+    ('change_state_in_at', 'named< 0, at< cs< 1, 1, %s > >, cs< 2, 2, %s >, %s >' % (S0, S0, S1)),
     ('nested_switches', 'named< 0, cs< 1, 1, ca< 2, 2, %s >, %s >, %s >' % (S0, S1, S2)),
 ]
 
@@ -209,7 +228,7 @@ def plan(ctx):
             calls.append('#if !defined(VF_SPLIT) || defined(V_%s)\n  cx_act = 1; cx_st = 9; cx_quiet = 0; ev_reset_spec(); e = %s(sp_start, %d); ASSUME(e.r != 4); ASSUME(ev_nspec <= EV_MAX);\n'
                          '  ev_reset_real(); w_%s_%s(sp_buf, sp_n, sp_start, o); check_variant("", o, e, %d); ev_compare();\n#endif' % (m, fn, a, name, m, req))
         reach = []
-        if 'state' in text or 'cs<' in text or 'cas<' in text:
+        if 'state' in text or 'cs<' in text or 'cas<' in text or 'csd<' in text or 'casd<' in text:
             reach.append('  REACH(e.r == 1 && ev_nspec >= 6, "scoped rule matched");')
         h = ctx.write('h_%s.c' % name, HARNESS % {'N': N, 'evmax': evmax, 'spec': g.text(), 'calls': '\n'.join(calls), 'reach': '\n'.join(reach)})
         for m in MODES:
